@@ -673,10 +673,8 @@ Qed.
 (* NOT PROVED (C04 is partial):
    - d >= 2: the change-of-variables theorem in R^d (Coquelicot has no multivariate integration).  For d >= 2 the Coq
      content is C01 (every layer a bijection of R^d onto R^d, total both ways) + C02 (the reported log-det).
-   - the rational-quadratic spline as a [diffeo]: it is C1 on R only when the two boundary derivatives equal 1; in general
-     it has two kinks (interval ends), so the statement needs the Chasles form over (-inf, lo], [lo, hi], [hi, +inf) and the
-     continuity of the derivative across knots.  RqsDerivP.v has the derivative at every point except the two ends and the
-     one-sided derivatives there; the closure lemma is not done.
+   - (the rational-quadratic spline is NOT a [diffeo] -- two kinks -- but it is a [pdiffeo]: Proofs/IntSplineP.v proves the
+     piecewise form of the theorem, its closure under Chain / Invert, and the spline instance.)
    - TriangularAffine / Permute / Flip in d = 1 are Affine / identity (not spelled out); Exp, SoftPlus, Tanh are not onto R.
    - that the sampler's base draws follow the base law (jr.normal), and every statistical statement about samples.
      (That the sample is the push-forward of the base draw through the same map the density uses is C03.) *)
